@@ -331,7 +331,7 @@ func checkLarge(c LargeCase) error {
 	}
 	extra, stdin, infiles, _ := cli.Present(cli.InModes[len(c.Tree.Tips())%len(cli.InModes)], in, "-i")
 	for name, content := range infiles {
-		cli.Write(dir, name, content)
+		cli.WriteIn(dir, name, content)
 	}
 	args = append(args, extra...)
 	r := cli.Run(dir, stdin, args...)
